@@ -15,8 +15,9 @@ VERIF = os.path.dirname(os.path.dirname(os.path.abspath(__file__)))
 COQ = os.path.join(VERIF, 'coq')
 OCAML = os.path.join(VERIF, 'ocaml')
 HARN = os.path.join(VERIF, 'harness')
+REPO = os.environ.get('GF_REPO', '/repo')   # the tree under test (snapshots of it for background seed runs)
 GFMODEL = os.path.join(OCAML, 'gfmodel')
-GOENV = dict(os.environ, GOFLAGS='-mod=mod', GOPROXY='off', GOSUMDB='off', GOTOOLCHAIN='local',
+GOENV = dict(os.environ, GF_REPO=os.environ.get('GF_REPO', '/repo'), GOFLAGS='-mod=mod', GOPROXY='off', GOSUMDB='off', GOTOOLCHAIN='local',
              CGO_ENABLED=os.environ.get('CGO_ENABLED', '1'))
 NPROC = min(16, os.cpu_count() or 4)
 
@@ -58,7 +59,10 @@ def build_harness(race=False):
     """always rebuilt from /repo's current working tree (go's cache makes it cheap)."""
     out = os.path.join(HARN, 'gfharness-race' if race else 'gfharness')
     gosum = os.path.join(HARN, 'go.sum')
-    sh('cp /repo/go.sum %s' % gosum)
+    sh('cp %s/go.sum %s' % (REPO, gosum))
+    gomod = open(os.path.join(HARN, 'go.mod.in')).read().replace('@REPO@', REPO)
+    if not os.path.exists(os.path.join(HARN, 'go.mod')) or open(os.path.join(HARN, 'go.mod')).read() != gomod:
+        open(os.path.join(HARN, 'go.mod'), 'w').write(gomod)
     p = sh('go build -tags verif %s -o %s .' % ('-race' if race else '', out), cwd=HARN, env=GOENV,
            timeout=900, check=False)
     if p.returncode != 0:
@@ -457,7 +461,8 @@ def run_scope_b(chk, prop, ins, label, matchers, oracle=None, timeout=30.0):
         o, m = pj(o), pj(m)
         if prop.nontrivial(a, m):
             chk.nontrivial.add(hashlib.sha1(a.encode()).digest()[:8])
-        chk.count('outcome:' + m.split(' ')[0][:12] if m else 'outcome:empty')
+        w = m.split(' ')[0] if m else 'empty'
+        chk.count('outcome:' + (w if w.isalpha() and len(w) <= 10 else 'value'))
         if o != m:
             bad.append((a, o, m))
     return bad
